@@ -106,7 +106,9 @@ def replay(case):
     if k == "pda":
         pdah.STATE_POOLS["spell"] = SPELL_STATES[case["pool"]]
         pdah.STACK_POOLS["spell"] = {"Z": SPELL_STATES[case["pool"]]["q3"], "X": SPELL_SYMS[case["pool"]]["b"], "Y": "Y"}
-        p, _ = pdah.build(case["hist"], "spell", "spell", ymap=SPELL_SYMS[case["pool"]])
+        # every third PDA also declares a state that occurs in no transition (through the constructor)
+        extra = ("isolated",) if len(case["hist"]) % 3 == 0 else ()
+        p, _ = pdah.build(case["hist"], "spell", "spell", ymap=SPELL_SYMS[case["pool"]], extra_states=extra)
         X = pdah.project(p)
         from pyformlang.pda import PDA
         r = guard.call(lambda: PDA.from_networkx(p.to_networkx()))
